@@ -122,7 +122,12 @@ def is_scan(li, e, it, p):
     return None
 
 
-def check_loops(ctx, rep, loops, only_owner=None):
+FLAGS = ("<executor shutdown flag>", "<interpreter exit flag>")
+
+
+def check_loops(ctx, rep, loops, only_owner=None, components="all"):
+    """components: 'state' = the loop's work lists / counters (C03, C07, C08, C09: lost wake-up for work),
+    'flags' = the two stop flags (C11 / C12: lost wake-up for shutdown / interpreter exit), 'all' = both"""
     for li in loops:
         if only_owner and li.owner.name not in only_owner:
             continue
@@ -150,6 +155,10 @@ def check_loops(ctx, rep, loops, only_owner=None):
                     rep.ob("R-WAKE-L", "%s: %s on the loop's own event" % (li.target.qualname, k), ok, "%s() on %s, the loop's event is %s" % (k, fmt(r), li.event_field), where_of(e.fn, e.node), trace_of(p, e.seq))
             kinds = [k for k, _ in seq]
             comps = sorted(set(k[5:] for k in kinds if k.startswith("scan:")))
+            if components == "state":
+                comps = [c for c in comps if c not in FLAGS]
+            elif components == "flags":
+                comps = [c for c in comps if c in FLAGS]
             short = []
             for k in kinds:
                 kk = "scan(%s)" % k[5:] if k.startswith("scan:") else k
